@@ -224,7 +224,9 @@ def _unique_name(params: Any) -> str:
     if all_scalar:
         # Format: `pname1=pval1 pname2=pval2 pname3=pval3`
         keys = params.__params__.keys()
-        name = " ".join(f"{k}={str(getattr(params, k))}" for k in keys)
+        # Note string values are quoted and escaped (via `repr`), so that values which
+        # include spaces or equals-signs cannot be confused with another set of values.
+        name = " ".join(f"{k}={_readable(getattr(params, k))}" for k in keys)
 
         # These names must also be limited in length, for sake of our favorite output formats.
         # If the generated name is too long, use the hashing method below instead
@@ -249,6 +251,13 @@ def _unique_name(params: Any) -> str:
     h.update(data)
     # And return the (hex) digest as our unique name
     return h.hexdigest()
+
+
+def _readable(val: Any) -> str:
+    """Unambiguous, readable rendering of scalar parameter-value `val`."""
+    if isinstance(val, str):
+        return repr(val)
+    return str(val)
 
 
 def hdl21_naming_encoder(obj: Any) -> Any:
